@@ -111,10 +111,10 @@ func pickMethod(routes []Route, cands []int, method string) int {
 // Decision classes exercised by a lookup (for evidence labels).
 type Trace struct {
 	LitOverParam, ParamOverAny, LitOverAny bool
-	ExactOverStar                         bool
-	SkippedEmpty, LastEmpty               bool
-	RootSpecial, RootFallThrough          bool
-	AnyTail                               bool
+	ExactOverStar                          bool
+	SkippedEmpty, LastEmpty                bool
+	RootSpecial, RootFallThrough           bool
+	AnyTail                                bool
 }
 
 // Select returns the index of the route the documented walk selects for (method, path), or -1 for
